@@ -60,3 +60,19 @@ Theorem C05_function_history_independent_from_text : forall cfg parse_float rege
             end.
 Proof. exact fun_history_independent_from_text. Qed.
 Print Assumptions C05_function_history_independent_from_text.
+(* … and followed by an aggregate function (AggCor.v) *)
+From JP Require Import AggParse AggCor.
+Theorem C05_aggregate_history_independent_from_text : forall cfg parse_float regex_ok ffun afun regex_match,
+  (forall f v w, small v -> ffun f v = Some w -> small w) ->
+  (forall f l w, Forall small l -> afun f l = Some w -> small w) ->
+  forall x r g fs doc st st',
+  forallb fstep_ok (x :: r) = true -> forallb (fstep_okp parse_float regex_ok) (x :: r) = true ->
+  forallb fname_ok (g :: fs) = true -> agg_known cfg g = true -> forallb (fun_known cfg) fs = true -> small doc -> ok st -> ok st' ->
+  exists t, parse_with cfg parse_float regex_ok jsonpath_grammar (fchain_fun_path (x :: r) (g :: fs)) = ParseOk t /\
+            match fst (eval_run ffun afun regex_match t doc st) with
+            | OOk rs => fst (eval_run ffun afun regex_match t doc st') = OOk rs
+            | OErr _ => exists e, fst (eval_run ffun afun regex_match t doc st') = OErr e
+            | OPanic _ => False
+            end.
+Proof. exact agg_history_independent_from_text. Qed.
+Print Assumptions C05_aggregate_history_independent_from_text.
